@@ -284,6 +284,58 @@ def gen_power_history(rng, tag):
     return ({"modules": mods, "ops": ops1}, {"modules": mods, "ops": ops2}, finals, final_start, after_flush, base_start, len(defs), len(decls))
 
 
+def gen_ring_history(rng, tag):
+    """handbook numbers seldom close exactly: a ring of the user's units (r0 = k0 r1, r1 = k1 r2, ..., r(n-1) = K r0) whose
+    last statement is a few 1e-5 off what the others multiply out to, with a few units hanging off the ring.  Two routes
+    lead from any member to any other and they give measurably different numbers - which one the library takes is its
+    business, but it has to be the one a fresh process takes, whatever was asked before (there is no declaration after
+    the questions begin, so nothing empties a memo table in between)"""
+    n = rng.randint(4, 7)
+    dim = rng.choice(["length", "mass", "time"])
+    ring = [f"zq{tag}r{k}" for k in range(n)]
+    spurs = [f"zq{tag}p{k}" for k in range(rng.randint(0, 3))]
+    defs = [["define", x, x, ["dimname", dim]] for x in ring + spurs]
+    ks = [rng.choice([2.5, 0.3, 7000.0, 12.0, 0.0254, 3.0, 1.609344, 60.0, 0.45359237]) for _ in range(n - 1)]
+    prod = 1.0
+    for k in ks:
+        prod *= k
+    closing = (1 / prod) * (1 + rng.choice([3e-5, -2e-5, 7e-5]))
+    decls = [["declare", ["u", ring[i]], ["f", float(ks[i]).hex()], ["u", ring[i + 1]]] for i in range(n - 1)]
+    decls.append(["declare", ["u", ring[-1]], ["f", float(closing).hex()], ["u", ring[0]]])
+    for sp in spurs:
+        decls.append(["declare", ["u", sp], ["f", float(rng.choice([2.0, 0.1, 36.0])).hex()], ["u", rng.choice(ring)]])
+    rng.shuffle(decls)
+
+    def query():
+        a, b = rng.sample(ring + spurs, 2)
+        e = rng.choice([1, 1, 1, 2, -1])
+        ta, tb = (["u", a], ["u", b]) if e == 1 else (["pow", ["u", a], e], ["pow", ["u", b], e])
+        kind = rng.choice(["convert", "convert", "convert", "eq", "lt"])
+        if kind == "convert":
+            return ["convert", ["f", float(rng.choice([1, 2.5, 40, 1000])).hex()], ta, tb]
+        return [kind, ["i", rng.choice([1, 3, 10])], ta, ["i", rng.choice([1, 3, 10])], tb]
+
+    def reverse(q):
+        if q[0] == "convert":
+            return ["convert", q[1], q[3], q[2]]
+        return [q[0], q[3], q[4], q[1], q[2]]
+
+    finals = [query() for _ in range(rng.randint(6, 12))]
+    ops1 = list(defs) + list(decls)
+    for _ in range(rng.randint(3, 14)):
+        r = rng.random()
+        ops1.append(reverse(rng.choice(finals)) if r < 0.4 else rng.choice(finals) if r < 0.5 else query())
+    final_start = len(ops1)
+    ops1 += finals
+    ops1 += [["cache_info"], ["flush"]]
+    after_flush = len(ops1)
+    ops1 += finals
+    ops2 = list(defs) + list(decls)
+    base_start = len(ops2)
+    ops2 += finals
+    return ({"modules": [], "ops": ops1}, {"modules": [], "ops": ops2}, finals, final_start, after_flush, base_start, len(defs), len(decls))
+
+
 class Num:
     """a returned magnitude compared *numerically*: the route a plan takes may depend on the
     order in which compound units happened to be interned, which changes a Decimal's
@@ -360,7 +412,10 @@ def run(ctx):
     n = ctx.scale(128, 3000)
     cases = []
     for i in range(n):
-        if i % 4 == 1:
+        if i % 8 == 6:
+            cases.append(gen_ring_history(rng, tag=f"c08s{ctx.seed}i{i}"))
+            ctx.count("histories_over_a_ring_of_equivalences_that_does_not_close_exactly")
+        elif i % 4 == 1:
             cases.append(gen_scale_history(rng, tag=f"c08s{ctx.seed}i{i}"))
             ctx.count("histories_over_units_with_a_zero_point")
         elif i % 4 == 3:
